@@ -32,6 +32,10 @@ pub struct Case {
     pub apps: u8,
     pub targets: u8,
     pub sends: Vec<Send>,
+    /// per target: delay of its replies in ms (0 = at once); a late reply arrives after the application has sent to
+    /// another target
+    #[serde(default)]
+    pub reply_delay_ms: Vec<u8>,
 }
 
 /// README rows for UDP.
@@ -75,8 +79,8 @@ fn case_strategy(tier: Tier, combo: Option<(Proto, Transport, u8)>) -> BoxedStra
         None => proptest::sample::select(udp_combos()).boxed(),
     };
     let n = if tier == Tier::Thorough { 60 } else { 24 };
-    (combo_s, 1u8..=4, 1u8..=3, any::<u8>(), 2u8..=12, 1u64..1_000_000)
-        .prop_flat_map(move |((proto, transport, n_users), apps, targets, user, workers, seed)| {
+    (combo_s, 1u8..=4, 1u8..=3, any::<u8>(), 2u8..=12, 1u64..1_000_000, proptest::collection::vec(prop_oneof![2 => Just(0u8), 1 => 5u8..40], 3))
+        .prop_flat_map(move |((proto, transport, n_users), apps, targets, user, workers, seed, reply_delay_ms)| {
             let send = (0..apps, 0..targets, size_strategy(tier), proptest::bool::weighted(0.25)).prop_map(|(app, target, size, by_name)| Send { app, target, size, by_name });
             proptest::collection::vec(send, 1..=n).prop_map(move |sends| {
                 let mut spec = Spec::new(proto, transport);
@@ -85,7 +89,7 @@ fn case_strategy(tier: Tier, combo: Option<(Proto, Transport, u8)>) -> BoxedStra
                 spec.user = user;
                 spec.workers = workers;
                 spec.seed = seed;
-                Case { spec, apps, targets, sends }
+                Case { spec, apps, targets, sends, reply_delay_ms: reply_delay_ms.clone() }
             })
         })
         .boxed()
@@ -253,7 +257,10 @@ pub fn exec_once(c: &Case) -> CaseResult {
             return res;
         }
     };
-    let targets: Vec<UdpTarget> = (0..c.targets.max(1)).map(|j| UdpTarget::spawn(j, true)).collect();
+    let targets: Vec<UdpTarget> = (0..c.targets.max(1)).map(|j| UdpTarget::spawn_delayed(j, true, c.reply_delay_ms.get(j as usize).copied().unwrap_or(0) as u16)).collect();
+    if c.reply_delay_ms.iter().take(c.targets as usize).any(|d| *d > 0) {
+        res.labels.push("late-replies".into());
+    }
     let apps: Vec<App> = (0..c.apps.max(1)).map(|_| App::new()).collect();
     let client = SocketAddr::V4(SocketAddrV4::new(Ipv4Addr::LOCALHOST, cl.client_port));
     let mut sent: Vec<Sent> = vec![];
